@@ -29,7 +29,7 @@ Proof.
 Qed.
 
 Lemma starter_app : forall (ra rb : list ptok), starter1 ra -> starter1 (ra ++ rb).
-Proof. intros [|a ra] rb H; [destruct H|exact H]. Qed.
+Proof. intros ra rb H. apply lead_ok_app. exact H. Qed.
 
 Lemma app_nonnil : forall (ra rb : list ptok), ra <> [] -> ra ++ rb <> [].
 Proof. intros [|a ra] rb H; [contradiction|discriminate]. Qed.
